@@ -8,7 +8,9 @@
 package main
 
 import (
+	"bytes"
 	"encoding/json"
+	"errors"
 	"fmt"
 	"os"
 	"sort"
@@ -40,6 +42,8 @@ type backend interface {
 
 // ---- backend 1: the real down track
 
+var errSourceModified = errors.New("Write modified the caller's buffer")
+
 type trackBackend struct{ w *fwd.World }
 
 func newTrackBackend() backend {
@@ -53,10 +57,17 @@ func (b *trackBackend) deliver(seq, pid uint16, tid int) (bool, uint16, error) {
 		X: true, I: true, M: true, PictureID: pid & 0x7FFF, T: true, TID: uint8(tid), S: true,
 		Body: []byte{byte(seq), byte(seq >> 8), 0x42}}
 	b.w.Rec.Take()
-	_, err := b.w.Down.Write(p.Bytes())
+	buf := p.Bytes()
+	orig := append([]byte(nil), buf...)
+	_, err := b.w.Down.Write(buf)
 	out := b.w.Rec.Take()
 	if err != nil {
 		return false, 0, err
+	}
+	if !bytes.Equal(buf, orig) {
+		// the writer loop hands the same buffer to every receiver of the
+		// stream in turn: the next one would number a packet it never saw
+		return false, 0, errSourceModified
 	}
 	if len(out) > 1 {
 		return false, 0, fmt.Errorf("one Write produced %d packets", len(out))
@@ -80,9 +91,17 @@ func (b *trackBackend) clone() backend {
 
 // ---- backend 2: packetmap alone, driven as Write drives it
 
-type mapBackend struct{ m packetmap.Map }
+// constPid: the codec has no picture id (everything but VP8): Write passes
+// pid 0 for every packet, so the picture-id shift stays 0 whatever is dropped.
+type mapBackend struct {
+	m        packetmap.Map
+	constPid bool
+}
 
 func (b *mapBackend) deliver(seq, pid uint16, tid int) (bool, uint16, error) {
+	if b.constPid {
+		pid = 0
+	}
 	if tid > 0 {
 		if b.m.Drop(seq, pid) {
 			return false, 0, nil
@@ -97,7 +116,7 @@ func (b *mapBackend) deliver(seq, pid uint16, tid int) (bool, uint16, error) {
 func (b *mapBackend) state() string { return b.m.VerifState() }
 func (b *mapBackend) close()        {}
 func (b *mapBackend) clone() backend {
-	n := &mapBackend{}
+	n := &mapBackend{constPid: b.constPid}
 	n.m.VerifCopyFrom(&b.m)
 	return n
 }
@@ -126,6 +145,7 @@ type world struct {
 	lateHi    bool
 	lastMacro bool
 	long      bool
+	cycle     bool // offers the 2^16-withheld macro (no-picture-id map backend)
 	firstSeq  uint16
 	haveFirst bool
 }
@@ -166,6 +186,16 @@ func (w *world) Ops() []seqx.Op {
 	}
 	for j := range w.recent() {
 		ops = append(ops, op{Kind: "dup", N: j})
+	}
+	if w.cycle && w.nops == 0 {
+		// exactly 2^16 packets withheld in all: the 16-bit seqno shift is 0
+		// again although the interval table is not empty
+		ops = append(ops, op{Kind: "alt", N: 65536})
+		// a long run of withheld packets with nothing forwarded in between
+		ops = append(ops, op{Kind: "hiburst", N: 57400}, op{Kind: "hiburst", N: 65536})
+		if !core.Quick() {
+			ops = append(ops, op{Kind: "alt", N: 65535}, op{Kind: "alt", N: 131072})
+		}
 	}
 	if w.macro && w.nops == 0 {
 		for _, n := range []int{120, 8190, 8192, 32767, 65530} {
@@ -224,6 +254,9 @@ func (w *world) deliver(p int64, tid int) *core.Violation {
 		w.haveFirst, w.firstSeq = true, seq
 	}
 	fw, out, err := w.be.deliver(seq, pid, tid)
+	if err == errSourceModified {
+		return viol("source-buffer-modified", fmt.Sprintf("delivering source seq %d to one receiver changed the source buffer, which the writer loop hands to the stream's other receivers next: they would compute their numbers from a sequence number that is not the incoming one", seq))
+	}
 	if err != nil {
 		return viol("write-error", fmt.Sprintf("delivering source seq %d: %v", seq, err))
 	}
@@ -240,8 +273,12 @@ func (w *world) deliver(p int64, tid int) *core.Violation {
 			// newer than everything seen so far and above the layer:
 			// deliberately withheld
 			inf.withheld = true
-			w.withheld = append(w.withheld, p)
-			sort.Slice(w.withheld, func(i, j int) bool { return w.withheld[i] < w.withheld[j] })
+			if n := len(w.withheld); n == 0 || w.withheld[n-1] < p {
+				w.withheld = append(w.withheld, p)
+			} else {
+				w.withheld = append(w.withheld, p)
+				sort.Slice(w.withheld, func(i, j int) bool { return w.withheld[i] < w.withheld[j] })
+			}
 		} else if inorder {
 			return viol("in-order-not-forwarded", desc+" arrived in order, is not above the selected layer, and was not forwarded")
 		}
@@ -285,7 +322,7 @@ func (w *world) Apply(o seqx.Op) *core.Violation {
 func (w *world) apply(o seqx.Op) *core.Violation {
 	x := o.(op)
 	w.nops++
-	w.lastMacro = x.Kind == "burst" || x.Kind == "alt" || x.Kind == "sparse"
+	w.lastMacro = x.Kind == "burst" || x.Kind == "alt" || x.Kind == "sparse" || x.Kind == "hiburst"
 	switch x.Kind {
 	case "fwd", "hi":
 		p := w.cursor
@@ -322,6 +359,19 @@ func (w *world) apply(o seqx.Op) *core.Violation {
 			}
 		}
 		w.gc()
+	case "hiburst":
+		w.long = true
+		for i := 0; i < x.N; i++ {
+			p := w.cursor
+			w.cursor++
+			if v := w.deliver(p, 1); v != nil {
+				return v
+			}
+			if i&1023 == 1023 {
+				w.gc()
+			}
+		}
+		w.gc()
 	case "sparse":
 		// Tid repetitions of: N forwarded packets, one withheld
 		w.long = true
@@ -340,6 +390,9 @@ func (w *world) apply(o seqx.Op) *core.Violation {
 			w.gc()
 		}
 	case "alt":
+		if x.N >= 16384 {
+			w.long = true
+		}
 		for i := 0; i < x.N; i++ {
 			for _, tid := range []int{0, 1} {
 				p := w.cursor
@@ -347,6 +400,9 @@ func (w *world) apply(o seqx.Op) *core.Violation {
 				if v := w.deliver(p, tid); v != nil {
 					return v
 				}
+			}
+			if i&1023 == 1023 {
+				w.gc()
 			}
 		}
 		w.gc()
@@ -381,7 +437,7 @@ func (w *world) Canon() string {
 		}
 		fmt.Fprintf(&b, "|%d:%d%v%v%v,%d", w.cursor-p, i.tid, i.delivered, i.withheld, i.forwarded, int64(len(w.withheld))-w.withheldBefore(p))
 	}
-	if w.macro && w.nops < 2 {
+	if (w.macro || w.cycle) && w.nops < 2 {
 		fmt.Fprintf(&b, "#n%d", w.nops)
 	}
 	return b.String()
@@ -393,7 +449,7 @@ func (w *world) Clone() seqx.World {
 	n := &world{be: w.be.clone(), start: w.start, cursor: w.cursor, highest: w.highest,
 		info: make(map[int64]*posInfo, len(w.info)), withheld: append([]int64(nil), w.withheld...),
 		outs: make(map[uint16]int64, len(w.outs)), nops: w.nops, macro: w.macro, lateHi: w.lateHi,
-		long: w.long, firstSeq: w.firstSeq, haveFirst: w.haveFirst}
+		long: w.long, cycle: w.cycle, firstSeq: w.firstSeq, haveFirst: w.haveFirst}
 	for p, i := range w.info {
 		c := *i
 		n.info[p] = &c
@@ -463,11 +519,16 @@ func cfgFor(kind string, start uint16) seqx.Config {
 	case "mapmacro":
 		return seqx.Config{Name: fmt.Sprintf("mapmacro/start%d", start), Fresh: freshWorld(start, false, true),
 			MaxDepth: core.Pick(5, 7), Parallel: 1}
+	case "mapcycle":
+		return seqx.Config{Name: fmt.Sprintf("mapcycle/start%d", start), Fresh: func() seqx.World {
+			return &world{be: &mapBackend{constPid: true}, start: start, highest: -1, info: map[int64]*posInfo{},
+				outs: map[uint16]int64{}, cycle: true, lateHi: true}
+		}, MaxDepth: core.Pick(4, 5), Parallel: 1}
 	}
 	panic(kind)
 }
 
-var kinds = []string{"track", "trackmacro", "map", "mapmacro"}
+var kinds = []string{"track", "trackmacro", "map", "mapmacro", "mapcycle"}
 
 func main() {
 	t0 := time.Now()
@@ -492,6 +553,9 @@ func main() {
 	for _, k := range kinds {
 		for _, s := range ss {
 			if core.Quick() && strings.HasSuffix(k, "macro") && s != 1 && s != 8191 && s != 57344 && s != 65535 {
+				continue
+			}
+			if k == "mapcycle" && s != 1 && (core.Quick() || s != 65535) {
 				continue
 			}
 			i++
